@@ -1,7 +1,6 @@
 package props
 
 import (
-	"time"
 	"bytes"
 	"context"
 	"errors"
@@ -11,6 +10,7 @@ import (
 	"net/http/httptest"
 	"strings"
 	"testing"
+	"time"
 
 	connect "github.com/bufbuild/connect-go"
 	"google.golang.org/protobuf/encoding/protojson"
